@@ -214,7 +214,7 @@ class Tensor:
         if d['dict_ver'] in [1, 2]:  # d from method to_dict (single version as of now)
 
             if 'trans' not in d:  # to handle dict_ver==1 with no trans
-                d['trans'] = None
+                d = {**d, 'trans': None}
 
             if d['type'] != 'Tensor':
                 raise YastnError(f"{cls.__name__} does not match d['type'] == {d['type']}")
